@@ -220,6 +220,21 @@ class ExpressionTransformer:
         self.pending_stack: list[PendingExprGeneric] = []
         self.nsp = nsp
 
+    def _rebinds_super(self) -> bool:
+        """whether the script gives the name `super` a meaning of its own"""
+        nsp = self.nsp
+        while nsp is not None:
+            try:
+                symbol = nsp.symt.lookup("super")
+            except KeyError:
+                symbol = None
+            if symbol is not None and (
+                symbol.is_assigned() or symbol.is_parameter() or symbol.is_imported()
+            ):
+                return True
+            nsp = getattr(nsp, "outer_nsp", None)
+        return False
+
     def get_pending(self, node: expr) -> PendingExprGeneric:
         if isinstance(node, (Yield, YieldFrom, Await)):
             raise RuntimeError(
@@ -234,6 +249,7 @@ class ExpressionTransformer:
             and not node.keywords
             and getattr(self.nsp, "is_method", False)
             and getattr(self.nsp, "first_positional_parameter", None) is not None
+            and not self._rebinds_super()
         ):
             # Loops become comprehensions, which are functions of their own on
             # runtimes before 3.12: spell out what a zero-argument super() means
